@@ -16,6 +16,8 @@ Everything outside the loop is a parameter (`Env`), chosen adversarially:
   * `wake k`  — the k-th `triggerPoll.wait`: what other threads do while it lasts, as batches `(d, exts)`: `d` ticks after
                 the wait began `exts` happen; the wait ends there if that set the event, otherwise at its time-out.
                 (`d = 0`: between the computation of `wait_time` and the entry of `wait`.)
+  * `takes k` — which further entries the k-th call itself takes out of its module's `writeDict` (a common write handler
+                fetching the values of the other members of its group, `rwhandler.WriteParameters.__missing__`),
   * `gap k`   — what other threads do between the return of the k-th `triggerPoll.wait` of the loop and the
                 `triggerPoll.clear()` that follows it (their setting of the event is wiped out by the `clear`; the
                 loop then starts over and re-reads every `PollInfo`, which is why nothing is lost).
@@ -114,6 +116,7 @@ structure Env where
   ext : Nat → List Ext
   wake : Nat → List (Nat × List Ext)
   gap : Nat → List Ext
+  takes : Nat → List Nat
 
 /-- an entry of `to_poll`: (module index, parameter) -/
 abbrev Entry := Nat × Nat
@@ -375,23 +378,39 @@ structure ProRes where
   evs : List Event
   aborted : Bool            -- a `CommunicationFailedError` ended the initial round
 
-/-- `self.writeDict.pop(pname, Done)` for module `i` -/
+/-- `self.writeDict.pop(pname, Done)` for module `i` (the keys of a dictionary are unique) -/
 def popPending (pd : Nat → List Nat) (i p : Nat) : Nat → List Nat :=
-  fun j => if j = i then (pd j).erase p else pd j
+  fun j => if j = i then (pd j).filter (fun q => q != p) else pd j
 
-/-- the body of `for pname in list(self.writeDict):` of `writeInitParams` (844-868) over the names `ps`: the entry is taken
-out of `writeDict`, then `write_<p>(value)` is called — a call like any other of the thread (it takes time, sets time
-stamps, other threads act meanwhile; writing `pollinterval` runs `PollInfo.update_interval`, which reaches the model as
-an action `ext`).  Whatever it raises — SECoP error, silent or not, or any other exception — is logged there: the outcome
-is not looked at.  Nothing else is called: in particular NO read function, polled or not. -/
+/-- the write function itself has taken the entries `ts` out of the module's `writeDict`
+(`CommonWriteHandler`: `values[key]` → `WriteParameters.__missing__` → `self.obj.writeDict.pop(key)`) -/
+def takeOut (pd : Nat → List Nat) (i : Nat) (ts : List Nat) : Nat → List Nat :=
+  fun j => if j = i then (pd j).filter (fun q => !ts.contains q) else pd j
+
+/-- one start value: the entry is taken out of `writeDict`, then `write_<p>(value)` is called — a call like any other
+of the thread (it takes time, sets time stamps, other threads act meanwhile; writing `pollinterval` runs
+`PollInfo.update_interval`, which reaches the model as an action `ext`; a common write handler takes the other members
+of its group out of `writeDict`).  Whatever it raises — SECoP error, silent or not, or any other exception — is logged
+there: the outcome is not looked at. -/
+def writeOne (env : Env) (σ : PollState) (i p : Nat) : CallRes :=
+  let r := call env { σ with pending := popPending σ.pending i p } i (.write p)
+  ⟨{ r.σ with pending := takeOut r.σ.pending i (env.takes σ.nCall) }, r.ev, r.out⟩
+
+/-- the body of `for pname in list(self.writeDict):` of `writeInitParams` (844-868) over the names `ps` (the snapshot
+taken when the loop begins): a name that is still in `writeDict` is written (`writeOne`); one that is not
+(`value is Done`: "in the mean time, a poller or handler might already have done it") is passed over.  Nothing else is
+called: in particular NO read function, polled or not. -/
 def writeParams (env : Env) (i : Nat) : List Nat → PollState → List Event → StepRes
   | [], σ, evs => ⟨σ, evs⟩
   | p :: ps, σ, evs =>
-    let r := call env { σ with pending := popPending σ.pending i p } i (.write p)
-    writeParams env i ps r.σ (evs ++ [r.ev])
+    if p ∈ σ.pending i then
+      let r := writeOne env σ i p
+      writeParams env i ps r.σ (evs ++ [r.ev])
+    else writeParams env i ps σ evs
 
 /-- `mobj.writeInitParams()` for module `i` of the thread's list: every start value still to be written, in the order
-of `writeDict`.  (A module with nothing left makes no call at all.) -/
+of `writeDict`.  (A module with nothing left makes no call at all.)  Not modelled: another THREAD taking entries out of
+`writeDict` while this runs (a client's write through a write handler) — not generated by the harness either. -/
 def writeInit (env : Env) (σ : PollState) (i : Nat) (evs : List Event) : StepRes :=
   writeParams env i (σ.pending i) σ evs
 
